@@ -156,12 +156,13 @@ Proof.
   - unfold plain_reply in H. chks H. okinv H. ag_tac.
   - unfold step_cts_send in H. chks H. okinv H. ag_tac.
   - unfold step_cts_deliver in H. chks H. destruct st; chks H; try (okinv H; ag_tac);
+      try match type of H with context [if ?b then setc _ _ _ else _] => destruct b end;
       (destruct (step_key _ _ _ _) eqn:E; try discriminate; okinv H; ag_tac).
   - chks H. okinv H. ag_tac.
   - unfold plain_send in H. chks H. okinv H. ag_tac.
-  - unfold step_csl_deliver in H. chks H. destruct st; try (okinv H; ag_tac).
+  - unfold step_csl_deliver in H. chks H. destruct st; chks H; try (okinv H; ag_tac).
     + destruct (step_csl_locks _ _ _) eqn:E; try discriminate. okinv H. ag_tac.
-    + destruct (c =? 0); [destruct (step_keys _ _ _ _) eqn:E; try discriminate |]; okinv H; ag_tac.
+    + destruct (c =? 0); chks H; [destruct (step_keys _ _ _ _) eqn:E; try discriminate |]; okinv H; ag_tac.
   - chks H. okinv H. ag_tac.
   - unfold step_rs_send in H. chks H. destruct (just_cts s r T c); chks H; okinv H; ag_tac.
   - unfold step_rs_deliver in H. chks H. destruct x; try (okinv H; ag_tac).
